@@ -290,6 +290,48 @@ fn case(ch: &mut Choices<'_>, st: &mut Stats) -> CaseResult {
             }
         }
     }
+    // the hash belongs to the AST, not to the C caller's history: a rule loader that parses,
+    // hashes and compiles one filter after the other (compile consumes the AST; the next AST
+    // may be allocated where the previous one was) gets the same hash for this filter again
+    {
+        use wirefilter_ffi as ffi;
+        let other = if let (Some(_), true) = (applied, e4 != expr) { catch(|| scheme.parse(&print_expr(&e4, &s2)).ok()).ok().flatten() } else { None };
+        let rounds = 1 + ch.draw(3);
+        for _ in 0..rounds {
+            if let Some(o) = &other {
+                let boxed = Box::new(ffi::FilterAst::from(o.clone()));
+                let ho = ffi::wirefilter_get_filter_hash(&boxed);
+                let want_o = c_hash(o).ok();
+                if ho.status != ffi::Status::Success || Some(ho.hash) != want_o {
+                    return Err(Fail::new("hash-depends-on-history", format!("hash of a boxed copy {:x}, of a fresh copy {want_o:x?}", ho.hash), show()));
+                }
+                let c = ffi::wirefilter_compile_filter(boxed);
+                if let Some(f) = c.filter {
+                    ffi::wirefilter_free_compiled_filter(f);
+                }
+            }
+            let boxed = Box::new(ffi::FilterAst::from(ast1.clone()));
+            let hb = ffi::wirefilter_get_filter_hash(&boxed);
+            if hb.status != ffi::Status::Success || hb.hash != h1 {
+                return Err(Fail::new(
+                    "hash-depends-on-history",
+                    format!("after hashing and compiling another filter through the C API this filter hashes to {:x}, before to {h1:x}", hb.hash),
+                    show(),
+                ));
+            }
+            if ch.boolean() {
+                let c = ffi::wirefilter_compile_filter(boxed);
+                if let Some(f) = c.filter {
+                    ffi::wirefilter_free_compiled_filter(f);
+                }
+            } else {
+                ffi::wirefilter_free_parsed_filter(boxed);
+            }
+        }
+        if other.is_some() {
+            st.class("hash-after-compiling-another-filter");
+        }
+    }
     // non-trivial: >= 3 operator occurrences, >= 2 rendered with different
     // aliases in the two texts, and a line break in some gap
     let differing = a1.iter().zip(&a2).filter(|(x, y)| x != y).count();
